@@ -20,7 +20,9 @@ initial value comes from the restored persistent value (which passes through the
 validation), else from initdef, then from events arriving during initialisation.
 An InputExp additionally replaces the value by the (validated) 'expired' value when the
 duration after the last accepted put has elapsed; expirations are *consumed* from the
-observation (monitor style), the model does not decide when the timer fires.
+observation (monitor style): the model does not decide when the timer fires, it only knows
+the earliest legal moment (an accepted value must last for its duration, also across a
+restart) and that the value must not outlive its duration by more than the scheduling slack.
 """
 
 from __future__ import annotations
@@ -112,7 +114,16 @@ class InputModel:
 
 
 class InputExpModel:
-    """state in {'valid', 'expired'}; deadline is informational (placing of events)."""
+    """
+    state in {'valid', 'expired'}.
+
+    deadline: the earliest moment (monotonic time of the run) at which the value accepted last
+    may be replaced by the expired value: time when the accepted put was *sent* + its
+    duration; None = never (infinite duration) or nothing pending. An observed expiration
+    before (deadline - tol) means an accepted value was dropped too early; the value is also
+    not supposed to survive the deadline by more than the scheduling slack of the run.
+    deadline_known is False while the model cannot tell (unjudged restore).
+    """
 
     def __init__(self, vspec, duration, expired=None, initdef=UNDEF):
         self.v = Validators(vspec)
@@ -131,9 +142,13 @@ class InputExpModel:
         self.state = None
         self.value = UNDEF
         self.deadline = None        # None = no timer pending
+        self.deadline_known = True
+        self.tol = 2e-6
 
     def _arm(self, duration, now):
         """Enter 'valid' with the given duration; a zero duration expires immediately."""
+        self.deadline_known = True
+        self.tol = 2e-6
         if duration == 'inf' or duration == float('inf'):
             self.state, self.deadline = 'valid', None
         elif duration <= 0:
@@ -142,27 +157,51 @@ class InputExpModel:
             self.state, self.deadline = 'valid', now + duration
 
     def start(self, now):
+        """now = a moment not later than the start of the simulation."""
         if self.init_value is not UNDEF:
             self.value = copy.deepcopy(self.init_value)
             self._arm(self.duration, now)
         else:
             self.state, self.deadline = 'expired', None
 
-    def restore(self, state, value, remaining, now):
-        """Continue a saved state (round trip; no validation is demanded here)."""
+    def restore(self, state, value, deadline, tol=1e-3):
+        """
+        Continue a saved state (round trip; no validation is demanded here). deadline is
+        given on the clock of the new run; it went through two wall clock conversions,
+        hence the coarser tolerance.
+        """
         self.state = state
         self.value = value
-        self.deadline = None if remaining is None else now + remaining
+        self.deadline = deadline if state == 'valid' else None
+        self.deadline_known = True
+        self.tol = tol
+
+    def unknown_timer(self):
+        """The model cannot tell when (whether) the current value expires."""
+        self.deadline = None
+        self.deadline_known = False
 
     def put(self, value, duration, now):
+        """now = the moment the put was sent (not later than the start of its timer)."""
         ok, res, why = self.v.validate(value)
         if ok:
             self.value = res
             self._arm(self.duration if duration is None else duration, now)
         return ok, why
 
+    def early(self, now) -> bool:
+        """Would an expiration observed now drop the accepted value too early?"""
+        if self.state != 'valid' or not self.deadline_known:
+            return False
+        return self.deadline is None or now < self.deadline - self.tol
+
+    def overdue(self, now, slack) -> bool:
+        return (self.state == 'valid' and self.deadline_known and self.deadline is not None
+                and now > self.deadline + slack)
+
     def expire(self):
         self.state, self.deadline = 'expired', None
+        self.deadline_known = True
 
     def output(self):
         return self.value if self.state == 'valid' else self.expired_value
